@@ -405,6 +405,12 @@ func (f *Frame) execConvert(x *ssa.Convert, reach string, st *State) {
 	}
 	if _, _, ok := intInfo(x.X.Type()); ok {
 		if _, _, ok2 := intInfo(x.Type()); ok2 {
+			if isUintptr(x.Type()) && !e.asBV(x.X.Type()) {
+				// int -> uintptr in int mode: keep the integer, leave the bit
+				// pattern unknown (sound; avoids int2bv on 64 bits)
+				f.vals[x] = Val{T: x.Type(), C: []string{e.fresh("uptr", "(_ BitVec 64)")}, IntOf: v.C[0]}
+				return
+			}
 			f.vals[x] = e.convert(v, x.Type())
 			return
 		}
@@ -431,12 +437,13 @@ func (f *Frame) execConvert(x *ssa.Convert, reach string, st *State) {
 // base(region) is an unknown 64-bit value; byte-slice regions are only known
 // to exist, so every alignment class 0..7 is possible.
 func (e *Eng) addrTerm(a *AddrVal) string {
-	e.declFun("baseaddr", "(Int) (_ BitVec 64)")
-	idx := a.Idx
 	if e.mode != ModeBV {
-		idx = sx("(_ int2bv 64)", idx)
+		// int mode: the 64-bit pattern of an address is never needed (only the
+		// tracked region/index and the integer residue are); leave it unknown.
+		return e.fresh("addrbits", "(_ BitVec 64)")
 	}
-	return sx("bvadd", sx("baseaddr", a.Reg), idx)
+	e.declFun("baseaddr", "(Int) (_ BitVec 64)")
+	return sx("bvadd", sx("baseaddr", a.Reg), a.Idx)
 }
 
 func (e *Eng) addrInt(a *AddrVal, t types.Type) string {
@@ -459,8 +466,9 @@ func (f *Frame) addrAdd(a, b Val) Val {
 	var d string
 	if e.mode == ModeBV {
 		d = b.C[0]
+	} else if b.IntOf != "" {
+		d = b.IntOf
 	} else {
-		// b is a BV64 produced by converting an int: recover the int if possible
 		d = bvToIdx(e, b.C[0])
 	}
 	na := *a.Addr
